@@ -379,7 +379,31 @@ class Emitter:
                 body = c
         if body is None:
             raise ExtractionError('no body for %s' % self.cname)
+        prologue = []
+        for c in fn.get('inner', []):
+            if c.get('kind') != 'CXXCtorInitializer':
+                continue
+            fld = c.get('anyInit', {})
+            if not fld or not c.get('inner'):
+                raise ExtractionError('%s: base/delegating constructor initialiser outside the subset' % self.cname)
+            fc, farr, fref = self.T.ctype(fld['type']['qualType'], fld['type'].get('desugaredQualType'))
+            ini = self.strip_wrappers(c['inner'][0])
+            ctx = Ctx(False)
+            if ini.get('kind') == 'CXXConstructExpr':
+                args = [a for a in ini.get('inner', []) if a.get('kind') != 'CXXDefaultArgExpr']
+                if farr or self.T.is_scalar(fc) or fc == 'mpz_t':
+                    continue                      # trivial construction of a C object
+                al = [self.arg(a, ctx, fc) for a in args]
+                prologue.append('  %s__ctor_%d(%s);' % (fc, len(al), ', '.join(['&self->' + fld['name']] + al)))
+                self.fire('E5_ctor')
+            elif ini.get('kind') == 'ImplicitValueInitExpr':
+                prologue.append('  self->%s = 0;' % fld['name'])
+            else:
+                prologue.append('  self->%s = %s;' % (fld['name'], self.expr(c['inner'][0], ctx)))
+            self.fire('E1_ctor_init')
         lines = self.compound(body, 0, top=True)
+        if prologue:
+            lines = [lines[0], '  /* member initialisers */'] + prologue + lines[1:]
         sig = '%s %s(%s)' % (rc, self.cname, ', '.join(params) if params else 'void')
         contract = self.spec.get('contract', '').rstrip()
         out = [sig]
